@@ -266,8 +266,15 @@ func (env *Zlisp) MakeSymbol(name string) *SexpSymbol {
 }
 
 func (env *Zlisp) GenSymbol(prefix string) *SexpSymbol {
-	symname := prefix + strconv.Itoa(env.nextsymbol)
-	return env.MakeSymbol(symname)
+	// skip names that are already interned (by a script, or by another
+	// interpreter sharing the table), so the result is always a new symbol.
+	for {
+		symname := prefix + strconv.Itoa(env.nextsymbol)
+		if _, used := env.symtable[symname]; !used {
+			return env.MakeSymbol(symname)
+		}
+		env.nextsymbol++
+	}
 }
 
 func (env *Zlisp) CurrentFunctionSize() int {
